@@ -416,12 +416,10 @@ func (s *Server) Get(req *spb.GetRequest, stream spb.GRIBI_GetServer) error {
 	// when we exit, then it will stop the goroutine that we started to do
 	// the get in the case that we exit due to some error.
 	defer func() {
-		// Non-blocking write to the stopCh, since if the goroutine has
-		// already returned then it won't be listening and we'll deadlock.
-		select {
-		case stopCh <- struct{}{}:
-		default:
-		}
+		// Close the stopCh such that the goroutine stops wherever it currently
+		// is, particularly if it is blocked writing a message that we will no
+		// longer read - since it holds a lock on the RIB whilst doing so.
+		close(stopCh)
 	}()
 
 	go s.doGet(req, msgCh, doneCh, stopCh, errCh)
@@ -1075,7 +1073,10 @@ func checkElectionForModify(opID uint64, opElecID *spb.Uint128, election *electi
 func (s *Server) doGet(req *spb.GetRequest, msgCh chan *spb.GetResponse, doneCh, stopCh chan struct{}, errCh chan error) {
 	// Any time we return we return we tell the done channel that we're complete.
 	defer func() {
-		doneCh <- struct{}{}
+		select {
+		case doneCh <- struct{}{}:
+		case <-stopCh:
+		}
 	}()
 
 	if req == nil {
